@@ -489,6 +489,37 @@ def coq_term(c):
     raise ValueError(k)
 
 
+FINDING_FLAG = "C10-flag-multibit-member-shape"
+FINDING_RANGE_INIT = "C10-range-init-nonint-membership"
+
+
+def _init_value(i):
+    """integer value of an initialiser when it is an enum member or a single Const (None otherwise)"""
+    if isinstance(i, list) and i and i[0] in ("en", "ie"):
+        return i[1]
+    if isinstance(i, list) and i and i[0] == "c":
+        v, w, sg = i[1], i[2], i[3]
+        v &= (1 << w) - 1
+        return v - (1 << w) if sg and w and v >> (w - 1) else v
+    return None
+
+
+def known_finding(c, obs, model):
+    """The model follows the code in two places where the code contradicts the property text (both reported, see the
+    `..._refuted` theorems of Props/C10.v).  A mismatch is classified under the finding's id only when the implementation
+    answers what the PROPERTY asks for instead (i.e. after a fix of /repo, until the model is brought in line)."""
+    k = c["k"]
+    if k == "enum_cls" and "Flag" in c["cls"] and c.get("shape") is None and all(isinstance(m, int) for m in c["ms"]):
+        w, sg = G.enum_shape(c["ms"])
+        if obs == [1, w, int(sg)] and model != obs:
+            return FINDING_FLAG
+    if k == "init_x" and c["sp"][0] == "rg":
+        v = _init_value(c["i"])
+        if v is not None and v in range(c["sp"][1], c["sp"][2], c["sp"][3]) and obs == [1, v] and model[0] == 0:
+            return FINDING_RANGE_INIT
+    return None
+
+
 def explain(c):
     return ("model answer encodes: shapes as [width, signed], optional results as [1, value] / [0] (rejected); the kinds added "
             "after the audit answer [0, c] with the exception class c (1 TypeError, 2 ValueError, 3 IndexError, 4 SyntaxError)")
